@@ -422,6 +422,25 @@ func applyFault(r *Rand, b []byte, kind int, donor func() string) ([]byte, strin
 		ins := []string{"\x00", "\xff", "é", "\r", "\r\n", " ", "\xc3"}[r.Intn(7)]
 		nb := append(append(append([]byte{}, b[:p]...), ins...), b[p:]...)
 		return nb, fmt.Sprintf("insert@%d=%q", p, ins), p
+	case 10: // the first token of a line (a name, in most formats) blanked out
+		lines := strings.SplitAfter(string(b), "\n")
+		if len(lines) < 2 {
+			return b, "", 0
+		}
+		i := r.Intn(len(lines))
+		off := 0
+		for _, l := range lines[:i] {
+			off += len(l)
+		}
+		k := 0
+		for k < len(lines[i]) && lines[i][k] != ' ' && lines[i][k] != '\t' && lines[i][k] != '\n' && lines[i][k] != '\r' {
+			k++
+		}
+		if k == 0 {
+			return b, "", 0
+		}
+		nb := append(append(append([]byte{}, b[:off]...), strings.Repeat(" ", k)...), b[off+k:]...)
+		return nb, fmt.Sprintf("blankname@%d+%d", off, k), off
 	case 9: // all line ends become CRLF (a legal variant of the same file)
 		if !strings.Contains(string(b), "\n") || strings.Contains(string(b), "\r") {
 			return b, "", 0
@@ -431,7 +450,7 @@ func applyFault(r *Rand, b []byte, kind int, donor func() string) ([]byte, strin
 	return b, "", 0
 }
 
-var c03FaultNames = []string{"trunc", "set", "bit", "delline", "dupline", "swaplines", "num", "splice", "insert", "crlf", "readerr"}
+var c03FaultNames = []string{"trunc", "set", "bit", "delline", "dupline", "swaplines", "num", "splice", "insert", "crlf", "readerr", "blankname"}
 
 func faultKindOf(desc string) string {
 	for _, n := range c03FaultNames {
@@ -472,7 +491,7 @@ func (c03) Gen(rs uint64, tier string, race bool) interface{} {
 		return c03ValidFile(r, r.PickS("fasta", "phylip", "nexus", "clustal", "stockholm")).Content
 	}
 	for k := 0; k < nf; k++ {
-		kind := r.Pick(0, 0, 0, 1, 1, 1, 2, 3, 4, 5, 6, 6, 7, 8, 9)
+		kind := r.Pick(0, 0, 0, 1, 1, 1, 2, 3, 4, 5, 6, 6, 7, 8, 9, 10)
 		nb, desc, off := applyFault(r, b, kind, donor)
 		if desc == "" {
 			continue
